@@ -474,22 +474,7 @@ func sortedValKeys(m map[string]cty.Value) []string {
 }
 
 func matchHollow(as, bs []cty.Value, used []bool, i int) bool {
-	if i == len(as) {
-		return true
-	}
-	for j := range bs {
-		if used[j] {
-			continue
-		}
-		if hollowDiff(as[i], bs[j], "") == "" {
-			used[j] = true
-			if matchHollow(as, bs, used, i+1) {
-				return true
-			}
-			used[j] = false
-		}
-	}
-	return false
+	return mon.PerfectMatch(len(as)-i, len(bs), used, func(x, j int) bool { return hollowDiff(as[i+x], bs[j], "") == "" })
 }
 
 // roundTrip is the oracle for one (value, constraint) pair of the property's domain.
@@ -754,22 +739,10 @@ func simpleDiffImg(a, b cty.Value, path string, img bool) (string, string) {
 }
 
 func matchSimple(as, bs []cty.Value, used []bool, i int, img bool) bool {
-	if i == len(as) {
-		return true
-	}
-	for j := range bs {
-		if used[j] {
-			continue
-		}
-		if k, _ := simpleDiffImg(as[i], bs[j], "", img); k == "" {
-			used[j] = true
-			if matchSimple(as, bs, used, i+1, img) {
-				return true
-			}
-			used[j] = false
-		}
-	}
-	return false
+	return mon.PerfectMatch(len(as)-i, len(bs), used, func(x, j int) bool {
+		k, _ := simpleDiffImg(as[i+x], bs[j], "", img)
+		return k == ""
+	})
 }
 
 // ------------------------------------------------------------------ documents
